@@ -248,13 +248,13 @@ func (p *Prog) dLoad(u *ssa.UnOp, depth int, seen map[ssa.Value]bool) string {
 	case *ssa.Alloc:
 		// local variable that was not lifted (captured or address-taken): if it has exactly one
 		// store in the defining function and its closures, the variable is transparent.
-		if st := p.singleStore(a); st != nil {
+		if st := p.singleStore(a); st != nil && !p.isMutableLoad(st.Val) {
 			return p.d(st.Val, depth+1, seen)
 		}
 		return p.allocName(a)
 	case *ssa.FreeVar:
 		if al := p.freeVarAlloc(a); al != nil {
-			if st := p.singleStore(al); st != nil {
+			if st := p.singleStore(al); st != nil && !p.isMutableLoad(st.Val) {
 				return p.d(st.Val, depth+1, seen)
 			}
 			return p.allocName(al)
@@ -388,6 +388,11 @@ func (p *Prog) dCall(c *ssa.CallCommon, depth int, seen map[ssa.Value]bool) stri
 	case *ssa.Function:
 		if f.Signature.Recv() != nil && len(args) > 0 {
 			recv := args[0]
+			// an embedded-field selection is transparent only if promotion would select this very
+			// method; `sp.Point.Compare(…)` where StagePoint declares its own Compare must stay explicit
+			if name, ok := shadowedEmbedded(c.Args[0], f); ok {
+				recv += "." + name
+			}
 			if strings.HasPrefix(recv, "&") {
 				recv = recv[1:]
 			}
@@ -486,4 +491,64 @@ func forCounterPhi(phi *ssa.Phi) (string, bool) {
 		}
 	}
 	return start, inc && start != ""
+}
+
+// isMutableLoad: v is a snapshot (load) of a variable that is assigned more than once — a
+// variable initialised from such a snapshot is NOT interchangeable with the other variable, so it
+// keeps its own name in descriptors.
+func (p *Prog) isMutableLoad(v ssa.Value) bool {
+	v = stripConv(v)
+	u, ok := v.(*ssa.UnOp)
+	if !ok || u.Op != token.MUL {
+		return false
+	}
+	var al *ssa.Alloc
+	switch a := u.X.(type) {
+	case *ssa.Alloc:
+		al = a
+	case *ssa.FreeVar:
+		al = p.freeVarAlloc(a)
+	}
+	if al == nil {
+		return false
+	}
+	return len(p.storesTo(al)) > 1
+}
+
+// shadowedEmbedded: recv is (a load of) a selection of an embedded field whose outer type resolves
+// the method name to a different method than callee f. Returns the embedded field's name.
+func shadowedEmbedded(recv ssa.Value, f *ssa.Function) (string, bool) {
+	if u, ok := recv.(*ssa.UnOp); ok && u.Op == token.MUL {
+		recv = u.X
+	}
+	var outer types.Type
+	var idx int
+	switch x := recv.(type) {
+	case *ssa.Field:
+		outer, idx = x.X.Type(), x.Field
+	case *ssa.FieldAddr:
+		outer, idx = x.X.Type(), x.Field
+	default:
+		return "", false
+	}
+	t := outer
+	if pt, ok := t.Underlying().(*types.Pointer); ok {
+		t = pt.Elem()
+	}
+	st, ok := t.Underlying().(*types.Struct)
+	if !ok || idx >= st.NumFields() || !st.Field(idx).Embedded() {
+		return "", false
+	}
+	if o := f.Origin(); o != nil {
+		f = o
+	}
+	fobj := f.Object()
+	if fobj == nil {
+		return "", false
+	}
+	obj, _, _ := types.LookupFieldOrMethod(t, true, fobj.Pkg(), fobj.Name())
+	if obj == nil || obj == fobj {
+		return "", false
+	}
+	return st.Field(idx).Name(), true
 }
